@@ -25,6 +25,8 @@ type Step struct {
 type Scenario struct {
 	Src   int    `json:"src"` // source type (index into the universe)
 	Steps []Step `json:"steps"`
+	// Other: a second program built step-interleaved with this one (state kept outside the morphism values would show)
+	Other *Scenario `json:"other,omitempty"`
 }
 
 // ---- model: written from the statement, independent of duct's append/unit
@@ -274,6 +276,11 @@ func Run(sc Scenario) (msg string) {
 	if err := apply(build(sc, types), rec2); err != nil || !reflect.DeepEqual(rec2.events, want) {
 		return "second build+visit differs from the first"
 	}
+	if sc.Other != nil {
+		if m := runInterleaved(sc, *sc.Other); m != "" {
+			return m
+		}
+	}
 	for k := range want {
 		e := fmt.Errorf("E(%d)", k)
 		fv := &visitor{failAt: k, err: e}
@@ -286,6 +293,72 @@ func Run(sc Scenario) (msg string) {
 		}
 		if !reflect.DeepEqual(fv.events, want[:k+1]) {
 			return fmt.Sprintf("visitor failing at callback %d: trace prefix differs", k)
+		}
+	}
+	return ""
+}
+
+// stepper applies the steps of one program one at a time.
+type stepper struct {
+	sc    Scenario
+	types []int
+	m     any
+	i     int
+}
+
+func newStepper(sc Scenario, types []int) *stepper {
+	return &stepper{sc: sc, types: types, m: fromTab[sc.Src](0)}
+}
+
+func (s *stepper) done() bool { return s.i >= len(s.sc.Steps)-1 }
+
+func (s *stepper) step() {
+	st := s.sc.Steps[1+s.i]
+	tag, cur := s.i+1, s.types[s.i]
+	switch st.Op {
+	case "join":
+		s.m = joinTab[key3{s.sc.Src, cur, st.C}](tag, s.m)
+	case "liftf":
+		s.m = liftTab[key3{s.sc.Src, cur - 1, st.C}](tag, s.m)
+	case "wrapf":
+		s.m = wrapTab[key2{s.sc.Src, cur - 1}](s.m)
+	case "unit":
+		s.m = unitTab[key2{s.sc.Src, cur}](s.m)
+	case "yield":
+		s.m = yieldTab[key2{s.sc.Src, cur}](tag, s.m)
+	}
+	s.i++
+}
+
+// runInterleaved builds two programs alternately, step by step, and checks both traces.
+func runInterleaved(a, b Scenario) string {
+	ta, err := typecheck(a)
+	tb, err2 := typecheck(b)
+	if err != nil || err2 != nil {
+		return ""
+	}
+	sa, sb := newStepper(a, ta), newStepper(b, tb)
+	for !sa.done() || !sb.done() {
+		if !sa.done() {
+			sa.step()
+		}
+		if !sb.done() {
+			sb.step()
+		}
+	}
+	for which, x := range []struct {
+		sc Scenario
+		ty []int
+		m  any
+	}{{a, ta, sa.m}, {b, tb, sb.m}} {
+		var want []event
+		model(x.sc, x.ty).trace(0, &want)
+		rec := &visitor{failAt: -1}
+		if err := applyTab[key2{x.sc.Src, x.ty[len(x.ty)-1]}](x.m, rec); err != nil {
+			return fmt.Sprintf("two programs built alternately: visiting program %d returned %v", which+1, err)
+		}
+		if !reflect.DeepEqual(rec.events, want) {
+			return fmt.Sprintf("two programs built alternately: trace of program %d differs from its model:\n%s", which+1, diff(rec.events, want))
 		}
 	}
 	return ""
@@ -333,6 +406,15 @@ func choices(cur int, all []int) []Step {
 var allTypes = []int{0, 1, 2, 3, 4, 5, 6, 7, 8, 9, 10, 11, 12, 13, 14, 15}
 
 func gen(t *rapid.T) Scenario {
+	sc := gen1(t)
+	if rapid.IntRange(0, 3).Draw(t, "interleaved") == 0 {
+		o := gen1(t)
+		sc.Other = &o
+	}
+	return sc
+}
+
+func gen1(t *rapid.T) Scenario {
 	sc := Scenario{Src: rapid.SampledFrom(sourceTypes).Draw(t, "src"), Steps: []Step{{Op: "from"}}}
 	n := rapid.IntRange(0, 14).Draw(t, "len")
 	cur := sc.Src
